@@ -653,3 +653,329 @@ Proof.
   destruct (resolve_rec _ _ _ _ _ _) as [st' [r|]]; cbn [fst snd] in *;
     destruct (ref_rec _ _ _ _ _) as [r'|]; cbn [same_pe] in Hs; try contradiction; cbn; auto.
 Qed.
+
+(** * Read your publish *)
+
+Lemma fuel_of_pos : forall d, 0 <= d -> exists n, fuel_of d = S n.
+Proof.
+  intros d Hd. unfold fuel_of. destruct (d =? 0) eqn:E.
+  - unfold UNLIMITED_FUEL. eauto.
+  - assert (0 < d) by lia. exists (Z.to_nat (d - 1)). rewrite <- Z2Nat.inj_succ by lia. f_equal. lia.
+Qed.
+
+(** Immediately after a successful publish of an immutable value [v] under key [k],
+    on the ideal name system after ANY history, with ANY cache configuration:
+    resolving the name in ANY of its textual forms, with ANY remainder and ANY depth
+    limit, returns [v] with the remainder appended, and no error. *)
+Theorem read_your_publish : forall cf ops k v ttl eol so en segs slash d,
+  let st := fst (run ideal cf st0 ops) in
+  let st' := fst (publish ideal cf st k v ttl eol so) in
+  let p := mkPath (RName k en) segs slash in
+  snd (publish ideal cf st k v ttl eol so) = PNone ->
+  mutable v = false -> 0 <= d ->
+  let r := snd (resolve ideal cf st' p d) in
+  o_path r = Some (join v p) /\ o_err r = ENone.
+Proof.
+  intros cf ops k v ttl eol so en segs slash d st st' p He Hv Hd r. subst r.
+  (* st' is the state after the history ops ++ [publish] *)
+  assert (Hst' : st' = fst (run ideal cf st0 (ops ++ [OPublish k v ttl eol so]))).
+  { subst st' st. clear. generalize st0. induction ops as [|o ops IH]; intros s.
+    - cbn [app run step]. destruct (publish ideal cf s k v ttl eol so); reflexivity.
+    - cbn [app]. rewrite !run_cons. cbn [fst]. apply IH. }
+  rewrite Hst'. destruct (cache_transparent cf (ops ++ [OPublish k v ttl eol so]) p d) as [Hp Herr].
+  cbv zeta in Hp, Herr. rewrite Hp, Herr. rewrite <- Hst'. clear Hp Herr Hst'.
+  (* routing now holds v under k *)
+  assert (Hrt : exists r, alookup k (s_rt st') = Some r /\ r_val r = v).
+  { pose proof (publish_cases ideal cf st k v ttl eol so) as H. cbv zeta in H. fold st' in H.
+    destruct (choose_seq ideal (get_published st k) v so) as [s|].
+    - destruct H as [_ H]. destruct (rt_accepts _ _).
+      + destruct H as [_ ->]. eexists; split; reflexivity.
+      + destruct H as [H _]. rewrite H in He. discriminate.
+    - destruct H as (H & _). rewrite H in He. discriminate. }
+  destruct Hrt as (r & Hr & Hrv).
+  rewrite ref_resolve_eq. destruct (fuel_of_pos d Hd) as [n ->].
+  cbn [ref_rec]. unfold ref_once. cbn [mutable p p_root negb]. rewrite Hr.
+  cbn [o_err o_path]. rewrite Hrv.
+  assert (Hj : mutable (join v p) = false).
+  { unfold join. destruct (p_segs p), (p_slash p); cbn [mutable p_root]; exact Hv. }
+  rewrite Hj. cbn. auto.
+Qed.
+
+(** * Chains (third sentence of the property) *)
+
+(** one hop of the chain: the path the name at the root of [p] points to, with the
+    remainder of [p] appended, and the TTL of that hop *)
+Definition hop (cf : cfg) (rt : list (N * rec)) (p : path) : option (path * Z) :=
+  match p_root p with
+  | RName k _ =>
+      match alookup k rt with
+      | Some r => Some (join (r_val r) p, cap_ttl cf (Z.max 0 (r_ttl r)))
+      | None => None
+      end
+  | RDns d =>
+      match alookup d (c_dns cf) with
+      | Some (v, t) => if is_ipld v then None else Some (join v p, cap_ttl cf t)
+      | None => None
+      end
+  | _ => None
+  end.
+
+(** [chain p ts z]: following |ts| hops from [p] (each with the TTL listed) leads to [z] *)
+Inductive chain (cf : cfg) (rt : list (N * rec)) : path -> list Z -> path -> Prop :=
+| ch_nil : forall p, chain cf rt p [] p
+| ch_cons : forall p q t ts z, hop cf rt p = Some (q, t) -> chain cf rt q ts z -> chain cf rt p (t :: ts) z.
+
+(** how the code folds the TTLs of the hops *)
+Fixpoint minnz_list (ts : list Z) : Z :=
+  match ts with
+  | [] => 0
+  | [t] => t
+  | t :: r => min_nz t (minnz_list r)
+  end.
+
+Lemma hop_ref_once : forall cf rt p q t,
+  hop cf rt p = Some (q, t) -> ref_once cf rt p = Some (mkRes (Some q) t ENone false).
+Proof.
+  intros cf rt p q t H. unfold hop in H. unfold ref_once.
+  destruct (p_root p) as [ld c|k en|d|b] eqn:Hr; try discriminate; unfold mutable; rewrite Hr; cbn [negb].
+  - destruct (alookup k rt); inversion H; reflexivity.
+  - destruct (alookup d (c_dns cf)) as [[v t0]|]; [|discriminate].
+    destruct (is_ipld v); inversion H; reflexivity.
+Qed.
+
+Lemma ref_once_hop : forall cf rt p q t e fz,
+  ref_once cf rt p = Some (mkRes (Some q) t e fz) -> mutable p = true ->
+  hop cf rt p = Some (q, t) /\ e = ENone /\ fz = false.
+Proof.
+  intros cf rt p q t e fz H Hm. unfold ref_once in H. rewrite Hm in H. cbn [negb] in H. unfold hop.
+  destruct (p_root p) as [ld c|k en|d|b]; try discriminate.
+  - destruct (alookup k rt); inversion H; auto.
+  - destruct (alookup d (c_dns cf)) as [[v t0]|]; [|discriminate].
+    destruct (is_ipld v); inversion H; auto.
+Qed.
+
+Lemma hop_mutable : forall cf rt p x, hop cf rt p = Some x -> mutable p = true.
+Proof. intros cf rt p x H. unfold hop in H. unfold mutable. destruct (p_root p); try discriminate; reflexivity. Qed.
+
+(** the recursion of [resolveAsync] along a chain; [n] = hops still allowed *)
+Lemma ref_rec_chain : forall cf rt ts p z fuel d,
+  chain cf rt p ts z -> ts <> [] ->
+  (length ts <= fuel)%nat ->
+  (d = 0 \/ Z.of_nat (length ts) <= d) ->
+  mutable z = false ->
+  ref_rec fuel cf rt p d = Some (mkRes (Some z) (minnz_list ts) ENone false).
+Proof.
+  intros cf rt ts. induction ts as [|t ts IH]; intros p z fuel d Hc Hne Hf Hd Hz; [congruence|].
+  inversion Hc as [|p0 q t0 ts0 z0 Hh Hc']; subst.
+  destruct fuel as [|fuel]; [cbn in Hf; lia|]. cbn [ref_rec].
+  rewrite (hop_ref_once _ _ _ _ _ Hh). cbn [o_err o_path o_ttl o_fuzzy].
+  destruct ts as [|t2 ts].
+  - inversion Hc'; subst. rewrite Hz. reflexivity.
+  - assert (Hq : mutable q = true) by (inversion Hc'; subst; eapply hop_mutable; eauto).
+    rewrite Hq. cbn [negb].
+    assert (Hd1 : (d =? 1) = false). { cbn [length] in Hd. lia. }
+    rewrite Hd1.
+    rewrite (IH q z fuel (if 1 <? d then d - 1 else d) Hc'); try congruence.
+    + reflexivity.
+    + cbn [length] in *. lia.
+    + cbn [length] in *. destruct (1 <? d) eqn:E; lia.
+    + exact Hz.
+Qed.
+
+Lemma ref_rec_chain_rec : forall cf rt ts p z fuel d,
+  chain cf rt p ts z -> ts <> [] ->
+  (length ts <= fuel)%nat -> Z.of_nat (length ts) = d ->
+  mutable z = true ->
+  ref_rec fuel cf rt p d = Some (mkRes (Some z) (minnz_list ts) ERecursion false).
+Proof.
+  intros cf rt ts. induction ts as [|t ts IH]; intros p z fuel d Hc Hne Hf Hd Hz; [congruence|].
+  inversion Hc as [|p0 q t0 ts0 z0 Hh Hc']; subst.
+  destruct fuel as [|fuel]; [cbn in Hf; lia|]. cbn [ref_rec].
+  rewrite (hop_ref_once _ _ _ _ _ Hh). cbn [o_err o_path o_ttl o_fuzzy].
+  destruct ts as [|t2 ts].
+  - inversion Hc'; subst. rewrite Hz. cbn [negb length Z.of_nat Z.eqb Pos.of_succ_nat Pos.eqb]. reflexivity.
+  - assert (Hq : mutable q = true) by (inversion Hc'; subst; eapply hop_mutable; eauto).
+    rewrite Hq. cbn [negb].
+    assert (Hd1 : (Z.of_nat (length (t :: t2 :: ts)) =? 1) = false) by (cbn [length]; lia).
+    rewrite Hd1.
+    rewrite (IH q z fuel (if 1 <? Z.of_nat (length (t :: t2 :: ts)) then Z.of_nat (length (t :: t2 :: ts)) - 1
+                          else Z.of_nat (length (t :: t2 :: ts))) Hc'); try congruence.
+    + reflexivity.
+    + cbn [length] in *. lia.
+    + cbn [length]. destruct (1 <? _) eqn:E; lia.
+    + exact Hz.
+Qed.
+
+Lemma ref_rec_recursion_inv : forall cf rt fuel p d r,
+  ref_rec fuel cf rt p d = Some r -> o_err r = ERecursion -> 1 <= d ->
+  exists ts z, chain cf rt p ts z /\ Z.of_nat (length ts) = d /\ mutable z = true /\ o_path r = Some z.
+Proof.
+  intros cf rt. induction fuel as [|fuel IH]; intros p d r H He Hd.
+  - cbn in H. inversion H; subst. discriminate He.
+  - cbn [ref_rec] in H. destruct (ref_once cf rt p) as [r1|] eqn:H1; [|discriminate].
+    destruct (o_err r1) eqn:E1; try (inversion H; subst; congruence).
+    destruct (o_path r1) as [q|] eqn:Eq; [|inversion H; subst; congruence].
+    destruct (negb (mutable q)) eqn:Hm; [inversion H; subst; congruence|].
+    assert (Hmp : mutable p = true).
+    { destruct (mutable p) eqn:Hmp; [reflexivity|]. unfold ref_once in H1. rewrite Hmp in H1. cbn in H1.
+      inversion H1; subst. cbn in Eq. inversion Eq; subst. rewrite Hmp in Hm. discriminate. }
+    destruct r1 as [pa t1 e1 fz1]. cbn in E1, Eq. subst pa e1.
+    destruct (ref_once_hop _ _ _ _ _ _ _ H1 Hmp) as (Hh & _ & _).
+    destruct (d =? 1) eqn:Ed.
+    + inversion H; subst. exists [t1], q. repeat split.
+      * eapply ch_cons; [exact Hh | apply ch_nil].
+      * cbn. lia.
+      * now destruct (mutable q).
+    + destruct (ref_rec fuel cf rt q _) as [r2|] eqn:H2; [|discriminate].
+      inversion H; subst. cbn [o_err o_path] in *.
+      assert (Hd2 : 1 < d) by lia. destruct (1 <? d) eqn:E; [|lia].
+      destruct (IH q (d - 1) r2 H2 He ltac:(lia)) as (ts & z & Hc & Hl & Hz & Hp).
+      exists (t1 :: ts), z. repeat split; auto.
+      * eapply ch_cons; eauto.
+      * cbn [length]. lia.
+Qed.
+
+(** The three statements of the property's third sentence, for the reference
+    resolution over ANY routing table and DNS table (cycles included: a chain may
+    visit a name any number of times). *)
+Theorem chain_resolved : forall cf rt p ts z d,
+  chain cf rt p ts z -> ts <> [] -> mutable z = false ->
+  ((d = 0 /\ (length ts <= UNLIMITED_FUEL)%nat) \/ Z.of_nat (length ts) <= d) ->
+  ref_resolve cf rt p d = mkRes (Some z) (minnz_list ts) ENone false.
+Proof.
+  intros cf rt p ts z d Hc Hne Hz Hd. rewrite ref_resolve_eq.
+  rewrite (ref_rec_chain cf rt ts p z (fuel_of d) d Hc Hne); auto.
+  - unfold fuel_of. destruct Hd as [[-> Hl]|Hl]; [exact Hl|].
+    destruct (d =? 0) eqn:E; [destruct ts; [congruence | cbn [length] in Hl; lia] | lia].
+  - destruct Hd as [[-> _]|Hl]; auto.
+Qed.
+
+Theorem chain_too_long : forall cf rt p ts z d,
+  chain cf rt p ts z -> Z.of_nat (length ts) = d -> 1 <= d -> mutable z = true ->
+  ref_resolve cf rt p d = mkRes (Some z) (minnz_list ts) ERecursion false.
+Proof.
+  intros cf rt p ts z d Hc Hl Hd Hz. rewrite ref_resolve_eq.
+  rewrite (ref_rec_chain_rec cf rt ts p z (fuel_of d) d Hc); auto.
+  - destruct ts; [cbn in Hl; lia | congruence].
+  - unfold fuel_of. destruct (d =? 0) eqn:E; lia.
+Qed.
+
+Theorem recursion_error_only_if_too_long : forall cf rt p d,
+  1 <= d -> o_err (ref_resolve cf rt p d) = ERecursion ->
+  exists ts z, chain cf rt p ts z /\ Z.of_nat (length ts) = d /\ mutable z = true.
+Proof.
+  intros cf rt p d Hd He. rewrite ref_resolve_eq in He.
+  destruct (ref_rec (fuel_of d) cf rt p d) as [r|] eqn:H; [|discriminate He].
+  destruct (ref_rec_recursion_inv cf rt _ p d r H He Hd) as (ts & z & Hc & Hl & Hz & _). eauto.
+Qed.
+
+Theorem immutable_resolves_to_itself : forall cf rt p d,
+  mutable p = false -> 0 <= d -> ref_resolve cf rt p d = mkRes (Some p) 0 ENone false.
+Proof.
+  intros cf rt p d Hm Hd. rewrite ref_resolve_eq. destruct (fuel_of_pos d Hd) as [n ->].
+  cbn [ref_rec]. unfold ref_once. rewrite Hm. cbn. rewrite Hm. reflexivity.
+Qed.
+
+(** the remainder: one hop appends the unresolved segments (and the trailing slash)
+    of the path to the value the name points to *)
+Theorem hop_appends_remainder : forall cf rt k en segs slash r,
+  alookup k rt = Some r ->
+  hop cf rt (mkPath (RName k en) segs slash) =
+  Some (match segs, slash with
+        | [], false => r_val r
+        | _, _ => mkPath (p_root (r_val r)) (p_segs (r_val r) ++ segs) slash
+        end, cap_ttl cf (Z.max 0 (r_ttl r))).
+Proof. intros. unfold hop. cbn [p_root]. rewrite H. reflexivity. Qed.
+
+(** [min_nz] / [minnz_list]: the least positive TTL, 0 when there is none *)
+Lemma min_nz_spec : forall a b,
+  (a <= 0 -> b <= 0 -> min_nz a b = 0) /\
+  (0 < a -> b <= 0 -> min_nz a b = a) /\
+  (a <= 0 -> 0 < b -> min_nz a b = b) /\
+  (0 < a -> 0 < b -> min_nz a b = Z.min a b).
+Proof. intros a b. unfold min_nz. destruct (Z.min a b <=? 0) eqn:E; lia. Qed.
+
+Theorem minnz_list_spec : forall ts,
+  (2 <= length ts)%nat \/ Forall (fun t => 0 <= t) ts ->
+  (Forall (fun t => t <= 0) ts -> minnz_list ts = 0) /\
+  (Exists (fun t => 0 < t) ts ->
+     0 < minnz_list ts /\ In (minnz_list ts) ts /\ Forall (fun t => 0 < t -> minnz_list ts <= t) ts).
+Proof.
+  assert (Hgen : forall ts, ts <> [] ->
+    (Forall (fun t => t <= 0) ts -> minnz_list ts = 0 \/ (exists t, ts = [t])) /\
+    (Exists (fun t => 0 < t) ts ->
+       0 < minnz_list ts /\ In (minnz_list ts) ts /\ Forall (fun t => 0 < t -> minnz_list ts <= t) ts)).
+  { induction ts as [|t ts IH]; intros Hne; [congruence|].
+    destruct ts as [|t2 ts].
+    - split; [eauto|]. intros Hex. inversion Hex as [? ? Hp|? ? Hp]; subst; [|inversion Hp].
+      cbn. repeat split; auto. constructor; [lia | constructor].
+    - destruct (IH ltac:(congruence)) as [IH0 IHp]. clear IH.
+      change (minnz_list (t :: t2 :: ts)) with (min_nz t (minnz_list (t2 :: ts))).
+      set (m := minnz_list (t2 :: ts)) in *.
+      pose proof (min_nz_spec t m) as (S00 & S10 & S01 & S11).
+      split.
+      + intros Hall. inversion Hall as [|? ? Ht Hall']; subst. left.
+        destruct (IH0 Hall') as [Hm|[x Hx]].
+        * apply S00; lia.
+        * inversion Hx; subst. inversion Hall'; subst. cbn [minnz_list] in m. subst m. apply S00; lia.
+      + intros Hex.
+        destruct (Z_lt_le_dec 0 t) as [Htp|Htn].
+        * (* t positive *)
+          destruct (Exists_dec (fun x => 0 < x) (t2 :: ts) (fun x => Z_lt_dec 0 x)) as [Hex'|Hnex].
+          -- destruct (IHp Hex') as (Hm0 & Hmin & Hmall).
+             rewrite S11 by lia. split; [lia|]. split.
+             ++ destruct (Z.min_spec t m) as [[_ ->]|[_ ->]]; [now left | now right].
+             ++ constructor; [lia|]. eapply Forall_impl; [|exact Hmall]. cbn. intros; lia.
+          -- assert (Hall' : Forall (fun x => x <= 0) (t2 :: ts)).
+             { apply Forall_forall. intros x Hx. destruct (Z_lt_le_dec 0 x); [|lia].
+               exfalso. apply Hnex. apply Exists_exists. eauto. }
+             assert (Hm : m <= 0).
+             { destruct (IH0 Hall') as [Hm|[x Hx]]; [lia|].
+               inversion Hx; subst. inversion Hall'; subst. cbn [minnz_list] in m. subst m. lia. }
+             rewrite S10 by lia. split; [lia|]. split; [now left|].
+             constructor; [lia|]. eapply Forall_impl; [|exact Hall']. cbn. intros; lia.
+        * (* t not positive: the positive one is in the tail *)
+          inversion Hex as [? ? Hp|? ? Hex']; subst; [lia|].
+          destruct (IHp Hex') as (Hm0 & Hmin & Hmall).
+          rewrite S01 by lia. split; [lia|]. split; [now right|].
+          constructor; [lia | exact Hmall]. }
+  intros ts Hside. destruct ts as [|t ts].
+  - split; [reflexivity|]. intros H. inversion H.
+  - destruct (Hgen (t :: ts) ltac:(congruence)) as [H0 Hp]. split; [|exact Hp].
+    intros Hall. destruct (H0 Hall) as [Hm|[x Hx]]; [exact Hm|].
+    inversion Hx; subst. cbn [minnz_list]. destruct Hside as [Hl|Hnn]; [cbn in Hl; lia|].
+    inversion Hall; subst. inversion Hnn; subst. lia.
+Qed.
+
+(** the fuel of the model's recursion is never exhausted when the depth is limited *)
+Theorem fuel_enough : forall f cf st p d,
+  1 <= d -> o_err (snd (resolve f cf st p d)) <> EDiverge.
+Proof.
+  intros f cf st p d Hd.
+  assert (Hgen : forall fuel st p d, 1 <= d -> fuel = Z.to_nat d ->
+            forall r, snd (resolve_rec fuel f cf st p d) = Some r -> o_err r <> EDiverge).
+  { clear. induction fuel as [|fuel IH]; intros st p d Hd Hf r H; [lia|].
+    cbn [resolve_rec] in H.
+    assert (Honce : forall r1, snd (resolve_once f cf st p) = Some r1 -> o_err r1 <> EDiverge).
+    { intros r1 H1. unfold resolve_once in H1. destruct (negb (mutable p)); [inversion H1; cbn; congruence|].
+      destruct (cache_get cf st (res_key f (p_root p))) as [st1 [[v t]|]]; [inversion H1; cbn; congruence|].
+      destruct (p_root p); try (inversion H1; cbn; congruence).
+      - destruct (alookup k (s_rt st1)); inversion H1; cbn; congruence.
+      - destruct (alookup d0 (c_dns cf)) as [[v t]|]; [|inversion H1; cbn; congruence].
+        destruct (is_ipld v); inversion H1; cbn; congruence. }
+    destruct (resolve_once f cf st p) as [st1 [r1|]]; [|discriminate H].
+    specialize (Honce r1 eq_refl). cbn [snd] in *.
+    destruct (o_err r1) eqn:E1; try (inversion H; subst; congruence).
+    destruct (o_path r1) as [q|]; [|inversion H; subst; congruence].
+    destruct (negb (mutable q)); [inversion H; subst; congruence|].
+    destruct (d =? 1) eqn:Ed; [inversion H; subst; cbn; congruence|].
+    destruct (1 <? d) eqn:E; [|lia].
+    pose proof (IH st1 q (d - 1) ltac:(lia) ltac:(lia)) as IH'.
+    destruct (resolve_rec fuel f cf st1 q (d - 1)) as [st2 [r2|]]; [|discriminate H].
+    inversion H; subst. cbn [o_err]. apply IH'. reflexivity. }
+  unfold resolve.
+  pose proof (Hgen (fuel_of d) st p d Hd) as H.
+  assert (Hf : fuel_of d = Z.to_nat d) by (unfold fuel_of; destruct (d =? 0) eqn:E; [lia | reflexivity]).
+  specialize (H Hf).
+  destruct (resolve_rec (fuel_of d) f cf st p d) as [st' [r|]]; cbn [snd] in *; [now apply H | cbn; congruence].
+Qed.
